@@ -148,9 +148,17 @@ def subviewGlobalH : Handler := fun j => do
   let ro := match j.getObjVal? "refuse_offset" with
     | .ok (.bool b) => b
     | _ => false
+  let flag := fun (k : String) => match j.getObjVal? k with
+    | .ok (.bool b) => b
+    | _ => false
+  let offs : List (Option Nat) := match j.getObjVal? "offs" with
+    | .ok o => (listOf (optOf nat) o).toOption.getD []
+    | _ => []
   match static? l with
   | none => return Json.mkObj [("layout", Json.null)]
   | some s =>
+    if !subviewGlobalGuard (flag "fix_whole") (flag "fix_aligned") s shape offs then
+      return Json.mkObj [("layout", Json.null), ("guard", Json.bool false)]
     let n := subviewGlobalLayout s shape
     let dataJ ← field j "data"
     let res : Json ← if dataJ.isNull then pure Json.null else do
